@@ -54,17 +54,41 @@ prop("C04",
      note="Assumes the tape view contracts (checked, bounded, in unit u2_tape), the Context::input/output oracle contracts (u2_tape) and the CellType ring contracts (proved in u1_cell; copied verbatim). Trusted: the canonical semantics in the unit template, vstd's str::as_bytes spec, Verus+Z3. Termination of the unlimited instance rests on the lock-step argument (not machine-checked).")
 
 prop("C07",
-     units=[("verus", "u7_inplace", r"#limited")],
-     level="proof",
-     technique="Verus deductive proof of the LIMITED=true monomorphisation of the real in-place interpreter: simulation invariant + termination measure (budget, |code|+1-pc)",
+     units=[("verus", "u7_inplace", r"#limited"), ("kani", "u5_bcint_ops", None)],
+     level="model_checking",
+     technique="Verus deductive proof of the LIMITED=true monomorphisation of the real in-place interpreter (simulation invariant + termination measure); Kani contract harnesses for the bytecode interpreter's limit op",
      design_ref="DESIGN.md section 4-U7, 5-C07",
-     text="In-place backend: budget-limited execution terminates (lexicographic measure), reports finished only when the canonical run halted, and its log is always a canonical prefix. Other back ends: see the units listed in the evidence.",
+     text="In-place backend (unbounded proof): budget-limited execution terminates (lexicographic measure), reports finished only when the canonical run halted, and its log is always a canonical prefix. Bytecode interpreter (Kani, per op): limit charges the budget, stops with registers spilled at budget <= cost and returns the next ip.",
      note="Proof covers the in-place interpreter. Not decided: 'effectively unlimited budget reports finished' for the compiled back ends (needs C01-C03 in full).")
 
 prop("C08",
-     units=[("verus", "u7_inplace", None), ("kani", "u2_tape", None)],
+     units=[("verus", "u7_inplace", None), ("kani", "u2_tape", None), ("kani", "u5_bcint_ops", None)],
      level="model_checking",
      technique="Verus proof of the in-place stop path (stopped configuration, no later event) + loop-free Kani contract harnesses for Context::input/output result mapping over all reader/writer outcomes",
      design_ref="DESIGN.md section 4-U7/U2, 5-C08",
      text="Context::input/output map every reader/writer outcome as specified (complete, loop-free); the in-place interpreter stops at the failing operation with the canonical prefix and returns Ok (unbounded proof).",
      note="Per-backend stop paths of the bytecode interpreter and the JIT are added by units U5/U6 when present in the evidence.")
+
+prop("C02",
+     units=[("kani", "u5_bcint_ops", None)],
+     level="model_checking",
+     technique="Kani contract harnesses calling each threaded-op instantiation of the real bcint::ops directly on a symbolic machine state and comparing the whole post-state with a bytecode step semantics",
+     design_ref="DESIGN.md section 4-U5, 5-C02",
+     text="Interpreter-op layer only: every op instantiation exercised computes bc_step over the documented stream layout for all cell/temp/register contents, offsets and immediates (complete per instantiation); instantiations are enumerated (quick: seeded sample; thorough: all 1116 at u8).",
+     note="NOT decided: ops::emit / build_threaded_code (op selection, operand word order, branch patching: Kani needs > 65 GB for the op_match! expansion), the bytecode generator bc.rs, the optimiser in front (C01), the release-build tail-call dispatcher. A defect there is not detected by this check.")
+
+prop("C06",
+     units=[("kani", "u2_tape", None), ("kani", "u5_bcint_ops", None), ("kani", "u2b_bccontext", None)],
+     level="model_checking",
+     technique="Kani contract harnesses: Memory operations over the abstract view from arbitrary well-formed states; window invariant and in-window dereferences of every threaded op (buffer == window, so any stray access is out of bounds for CBMC)",
+     design_ref="DESIGN.md section 4-U2/U5, 5-C06",
+     text="Tape API: every operation stays inside the owned block and preserves the view across growth in either or both directions (bounded in size, unbounded in history). Threaded ops: window invariant established by enter_ops, preserved by the checked right move incl. growth, every operand access inside the window; temporaries array sized max(temps,2).",
+     note="Relative to C11 (operands inside the declared window, temp index < temps: not discharged). NOT decided: checked LEFT move/scan that grows below (pointer before the allocation start is not representable in CBMC), the checked scan loop (timeout), the JIT probe sequence unless unit u6 is listed in the evidence.")
+
+prop("C10",
+     units=[("kani", "u5_bcint_ops", None)],
+     level="model_checking",
+     technique="Kani contract harnesses on the SAFE=false instantiations of the real move/scan ops: same post-state as the checked ops and no access outside the allocation when the destination window lies inside it",
+     design_ref="DESIGN.md section 4-U5, 5-C10",
+     text="Op level only: unchecked movl/movr/scanl/scanr move the pointer by the shift, preserve the view and the window invariant, and touch nothing outside the block, whenever every visited window lies inside the allocation.",
+     note="NOT decided: that a bounded canonical pointer excursion keeps the optimised program inside the margin (needs C01), the CLI's pre-allocation (C16), the JIT's unchecked mode unless unit u6 is listed.")
